@@ -76,9 +76,42 @@ SEQS = [{"seq": T(F32, (3,))}, {"seq": T(I64, None)}, {"seq": T(BOOL, (2, 2))}]
 SEQ_RANK0 = {"seq": T(F32, ())}  # elements of rank 0: `()` is a known shape, not an unknown one
 ZERO_LEN = [T(F32, (0,)), T(I64, (0, 2)), T(F32, (0, 0))]  # zero-length scan axes
 # how Loop's trip count / condition and If's condition are given: an argument, omitted, a constant
-LOOP_M = ["arg", "none", "const3", "const0"]
-LOOP_COND = [None, "constTrue", "constFalse"]
-IF_COND = ["arg", "constTrue", "constFalse"]
+LOOP_M = ["arg", "none", "const3", "const0", "computed3", "init3", "init0"]
+LOOP_COND = [None, "constTrue", "constFalse", "computedTrue", "initFalse"]
+# a compile-time-known value can come from every value source: `op.const`, the Constant constructor, a value computed
+# from constants by value propagation, an initializer
+VALUE_SOURCES = ["const", "constant", "computed", "computed2", "init"]
+IF_COND = ["arg"] + [f"{src_}{tv_}" for src_ in VALUE_SOURCES for tv_ in ("True", "False")]
+
+
+def known_value(env, op, src, value, shape1=False):
+    """A Var whose value is known when the constructor runs: bool `value` (or an int64 trip count), from source `src`."""
+    np = env.np
+    if isinstance(value, bool):
+        arr = np.array([value]) if shape1 else np.array(value)
+    else:
+        arr = np.array(value, np.int64)
+    if src == "const":
+        return op.const(arr)
+    if src == "constant":
+        return op.constant(value=arr)
+    if src == "init":
+        return env.graph.initializer(arr)
+    if isinstance(value, bool):
+        if src == "computed":  # not(not value)
+            return op.not_(op.const(np.array([not value]) if shape1 else np.array(not value)))
+        k = op.const(np.array([2] if shape1 else 2, np.int64))  # computed2: a comparison of constants
+        return op.equal(k, op.const(np.array([2] if shape1 else 2, np.int64))) if value else op.less(k, k)
+    return op.add(op.const(np.array(value - 1, np.int64)), op.const(np.array(1, np.int64)))
+
+
+def split_known(tag):
+    """'computedTrue' -> ('computed', True); 'init3' -> ('init', 3)"""
+    for src in sorted(VALUE_SOURCES, key=len, reverse=True):
+        if tag.startswith(src):
+            rest = tag[len(src):]
+            return src, (rest == "True") if rest in ("True", "False") else int(rest)
+    raise ValueError(tag)
 
 
 class _Types:
@@ -576,17 +609,24 @@ def run_real(env: Env, case, steps=()):
         ic = case.get("if_cond", "arg")
         if ic == "arg":
             outer["cond"] = env.spox.argument(env.ts.Tensor(np.bool_, ()))
-        else:  # a constant condition: one branch can never execute; both are still traced exactly once
-            consts["cond"] = op.const(np.array(ic == "constTrue"))
+        else:  # a compile-time-known condition: one branch can never execute; both are still traced exactly once
+            with warnings.catch_warnings():
+                warnings.simplefilter("ignore")
+                consts["cond"] = known_value(env, op, *split_known(ic))
     elif ctor == "loop":
         mm = case.get("M", "arg")
         if mm == "arg":
             outer["M"] = env.spox.argument(env.ts.Tensor(np.int64, ()))
-        elif mm != "none":  # constant trip count (3, or 0: the body never executes)
-            consts["M"] = op.const(np.array(3 if mm == "const3" else 0, np.int64))
+        elif mm != "none":  # known trip count (3, or 0: the body never executes)
+            with warnings.catch_warnings():
+                warnings.simplefilter("ignore")
+                consts["M"] = known_value(env, op, *split_known(mm))
         cc = case.get("cond")
         if isinstance(cc, str):
-            consts["cond"] = op.const(np.array([cc == "constTrue"]))
+            with warnings.catch_warnings():
+                warnings.simplefilter("ignore")
+                src_, val_ = split_known(cc)
+                consts["cond"] = known_value(env, op, src_, val_, shape1=True)
         elif cc is not None:
             outer["cond"] = env.operand(cc)
     if case.get("opcont") == "tuple":  # the operand lists as tuples (the parameters are `Sequence[Var]`)
@@ -687,7 +727,10 @@ def run_real(env: Env, case, steps=()):
     # ---- later steps
     if outs is not None and steps:
         node = getattr(outs[0], "_op", None) if outs else None
-        ins = {f"a{i}": v for i, v in enumerate(all_operands) if v.type is not None}
+        ins = {}
+        for i, v in enumerate(all_operands):  # (one Var may sit in several operand slots: one model input)
+            if v.type is not None and not any(v is u for u in ins.values()):
+                ins[f"a{i}"] = v
         with warnings.catch_warnings():
             warnings.simplefilter("ignore")
             outd = {f"o{i}": buildable(env, op, v) for i, v in enumerate(outs)}
@@ -1211,7 +1254,7 @@ def gen_cases(ck, info):
         for ops in lists_upto(TENSORS, maxlen_scan if mod in defs0.get("scan", []) else 2):
             for c in scan_variants(ops):
                 cases.append(finish_case(c, rng))
-        for _ in range(ck.pick(40, 0)):
+        for _ in range(ck.pick(16, 0)):
             for c in scan_variants(rand_list(TENSORS, 3)):
                 cases.append(finish_case(c, rng))
         for _ in range(longer // 3):
@@ -1287,6 +1330,20 @@ def gen_cases(ck, info):
             for n in range(0, 3):
                 if light or ic != "arg":
                     cases.append(finish_case({"mod": mod, "ctor": "if_", "n_if": n, "if_cond": ic}, rng))
+        # FIXED part (not sampled): a condition known at construction time, from every value source, with the branch
+        # that can never execute well-formed / malformed in every way — it is traced once and its TypeError clause holds
+        for ic in IF_COND[1:]:
+            dead = "else_branch" if ic.endswith("True") else "then_branch"
+            for k_bad, badcb in enumerate([None, {"beh": "notCallable", "n": 0, "variant": 1}, {"beh": "nonIterable", "n": 1, "variant": 0},
+                                           {"beh": "hasNonVar", "n": 2, "bad": "int", "pos": 1, "outer": "list"},
+                                           {"beh": "hasNonVar", "n": 2, "bad": "listOfVars", "pos": 0, "outer": "tuple"},
+                                           {"beh": "badArity", "n": 1, "form": "too_many", "container": "list", "natural": 1},
+                                           {"beh": "raises", "n": 1, "variant": 0}]):
+                c = finish_case({"mod": mod, "ctor": "if_", "n_if": 1, "if_cond": ic, "ambient": None, "kwcall": False}, rng, "list")
+                c["cbs"] = {r_: {k_: v_ for k_, v_ in cb_.items() if k_ != "form"} for r_, cb_ in c["cbs"].items()}
+                if badcb is not None:
+                    c["cbs"][dead] = dict(badcb)
+                cases.append(c)
     # ---- every callable FORM x constructor x shipped module (accepted forms and forms Python's call rejects)
     from harness import lib_c19forms as forms
 
@@ -1929,6 +1986,7 @@ def run_nested(ck: core.Check, env: Env):
         return stats
     esc = getattr(ck, "c19_escalated", False)
     progs = nest.gen_programs(rng, P, mods, ck.pick(150 if esc else 45, 400), ck.pick(50 if esc else 15, 150))
+    progs += nest.add_failing(rng, progs, ck.pick(90 if esc else 36, 240))  # one malformed callback somewhere in the tree
     try:
         models = ck.driver().ask_many("C19", [nest.model_request(p_, nest.STEPS) for p_ in progs])
     except Exception as e:  # noqa: BLE001
@@ -2027,8 +2085,10 @@ def run(ck: core.Check):
     ck.cov["generated_specs"] = {f"{m}.{c}": s["subgraphs"] for m, f in info["modules"].items() for c, s in f.items()}
     ck.cov["callback_sites"] = info["sites"]
     ck.lean(["SpoxModel.Props.C19"], audit="SpoxModel.Audit.C19")
-    if ck.thorough:
-        ck.leanchecker(["SpoxModel.Props.C19"])
+    if ck.thorough:  # every hand-written module the property theorems rest on
+        ck.leanchecker(["SpoxModel.Props.C19", "SpoxModel.Lemmas.Subgraph", "SpoxModel.Lemmas.SubgraphNested",
+                        "SpoxModel.Model.Subgraph", "SpoxModel.Model.SubgraphNested", "SpoxModel.Model.SubgraphSpec",
+                        "SpoxModel.Model.CallForm", "SpoxModel.Model.CallGraph"])
 
     env = Env()
     install_spy(env)
@@ -2051,7 +2111,7 @@ def _run(ck: core.Check, env: Env, info):
     info = dict(info, resolves=resolves)
     cases = gen_cases(ck, info)
     # which cases also get the later steps (builds, inference, value propagation)
-    n_steps = ck.pick(840 if getattr(ck, "c19_escalated", False) else 420, 2200)
+    n_steps = ck.pick(600 if getattr(ck, "c19_escalated", False) else 300, 2200)
     idx = list(range(len(cases)))
     def steppable(c):
         ds = [d for v in c.get("lists", {}).values() for d in v] + list(c.get("singles", {}).values())
@@ -2136,16 +2196,32 @@ def _run(ck: core.Check, env: Env, info):
     run_direct(ck, env)
     # ---- onnxruntime: bodies that use their arguments
     n_ort = 0
+    jobs = []
     for mod in env.mods:
         for prog in ORT_PROGS:
             for rep in range(ck.pick(1, 5)):
-                seed = rng.randrange(1 << 30)
-                n_ort += 1
-                ck.count(("ort", mod, prog))
-                r = run_ort_prog(env, mod, prog, seed)
-                if r is not None:
-                    ck.failure(f"{prog_ctor(prog)}:ort:{prog}:{r[0]}", f"{mod}.{prog}: {r[0]}: {r[1]}",
-                               {"kind": "ort", "mod": mod, "prog": prog, "seed": seed})
+                jobs.append((mod, prog, rng.randrange(1 << 30)))
+    # in child processes (one per module, in parallel): a native crash of onnx / onnxruntime is a per-program result
+    try:
+        from harness import lib_c19ort
+
+        ort_results = lib_c19ort.run_jobs(jobs)
+    except Exception as e:  # noqa: BLE001
+        ck.broken("correspondence", "C19 onnxruntime child processes", f"{type(e).__name__}: {e}")
+        ort_results = [None] * len(jobs)
+    crashes = 0
+    for (mod, prog, seed), r in zip(jobs, ort_results):
+        n_ort += 1
+        ck.count(("ort", mod, prog))
+        if r is not None and r[0] == "child-crash":
+            crashes += 1
+            ck.broken("correspondence", "C19 onnxruntime program crashed its child process", f"{mod}.{prog} seed={seed}: {r[1]}")
+        elif r is not None and str(r[0]).startswith("harness:"):
+            ck.broken("correspondence", "C19 onnxruntime program not observable", f"{mod}.{prog}: {r[0]} {r[1]}")
+        elif r is not None:
+            ck.failure(f"{prog_ctor(prog)}:ort:{prog}:{r[0]}", f"{mod}.{prog}: {r[0]}: {r[1]}",
+                       {"kind": "ort", "mod": mod, "prog": prog, "seed": seed})
+    ck.cov["ort_child_crashes"] = crashes
     ck.cov.update({
         "correspondence_cases": len(cases),
         "correspondence_mismatches": mismatches,
@@ -2210,10 +2286,12 @@ def replay(ck: core.Check, doc) -> bool:
                 hit = hit or mine
         return hit
     if case.get("kind") == "ort":
-        r = run_ort_prog(env, case["mod"], case["prog"], case["seed"])
+        from harness import lib_c19ort
+
+        r = lib_c19ort.run_jobs([(case["mod"], case["prog"], case["seed"])], 1)[0]
         if r is not None:
-            print(f"{case['mod']}.{case['prog']}: {r[0]}: {r[1]}")
-        return r is not None
+            print(f"* {case['mod']}.{case['prog']}: {r[0]}: {r[1]}")
+        return r is not None and r[0] != "child-crash" and not str(r[0]).startswith("harness:")
     install_spy(env)
     try:
         # twice in one process: argument Vars must be fresh for every call, also for equal operand types
